@@ -421,7 +421,131 @@ def prop_files(pid):
     return out
 
 
+# ------------------------------------------------ translated part of the model
+
+GEN_THEOREMS = {
+    # property -> generated-code equivalence theorems (coq/Gen/BiGenEq.v) its binomial operators rest on
+    "C01": ["gen_check_simplex_eq", "gen_check_base_rate_eq", "gen_sx_try_new_eq", "gen_sx_new_eq", "gen_try_new_eq", "gen_new_eq"],
+    "C10": ["gen_trans_unc_eq", "gen_trans_opp_eq", "gen_trans_bsr_eq"],
+    "C12": ["gen_mul_eq", "gen_comul_eq", "gen_projection_eq"],
+    "C13": ["gen_cfuse_eq", "gen_afuse_eq", "gen_wfuse_eq"],
+    "C14": ["gen_deduce_eq", "gen_projection_eq"],
+    "C19": ["gen_mul_eq", "gen_comul_eq", "gen_cfuse_eq", "gen_afuse_eq", "gen_wfuse_eq", "gen_deduce_eq",
+            "gen_trans_unc_eq", "gen_trans_opp_eq", "gen_trans_bsr_eq"],
+}
+GEN_BASE = ["gen_check_simplex_eq", "gen_check_base_rate_eq", "gen_sx_try_new_eq", "gen_try_new_eq"]
+
+
+def check_translation(pid):
+    """Regenerate the Gallina translation of <repo>/src/bi.rs (tools/rs2v.py), compile it and re-prove that the
+    hand-written model equals it (coq/Gen/BiGenEq.v).  Returns {"theorems": [...], "errors": [...]} restricted to
+    the theorems property <pid> rests on."""
+    want = GEN_THEOREMS.get(pid)
+    if not want:
+        return {"theorems": [], "errors": []}
+    want = list(dict.fromkeys(want + (GEN_BASE if pid != "C01" else [])))
+    d = os.path.join(SCRATCH, "gen")
+    os.makedirs(d, exist_ok=True)
+    res = {"theorems": [], "errors": []}
+    with Lock("gen" if not ISO else "gen-" + os.path.basename(ISO.rstrip("/"))):
+        src = os.path.join(REPO, "src", "bi.rs")
+        p = subprocess.run([sys.executable, os.path.join(VERIF, "tools", "rs2v.py"), src], stdout=subprocess.PIPE,
+                           stderr=subprocess.PIPE)
+        if p.returncode != 0:
+            res["errors"].append("translation of src/bi.rs failed (%s): the model's tie to the binomial source "
+                                 "(theorems %s) is not established" % (p.stderr.decode("utf-8", "replace").strip()[:400], ", ".join(want)))
+            return res
+        gen = os.path.join(d, "BiGen.v")
+        new = p.stdout.decode()
+        eq_src = open(os.path.join(COQ, "Gen", "BiGenEq.v")).read()
+        stamp = os.path.join(d, "ok.json")
+        import hashlib
+        key = hashlib.sha256((new + "\0" + eq_src).encode()).hexdigest()
+        cached = None
+        if os.path.exists(stamp):
+            try:
+                cached = json.load(open(stamp))
+            except ValueError:
+                cached = None
+        if not cached or cached.get("key") != key or not os.path.exists(os.path.join(COQ, "Model", "Bi.vo")) or \
+                os.path.getmtime(os.path.join(COQ, "Model", "Bi.vo")) > os.path.getmtime(stamp):
+            open(gen, "w").write(new)
+            rc, out = build_coq(["Model/Bi.vo"])
+            if rc != 0:
+                res["errors"].append("model does not compile: " + out[-800:])
+                return res
+            rc, out = sh(["coqc", "-Q", COQ, "SL", "-Q", d, "SLGen", gen], cwd=d, timeout=600)
+            failed = {}
+            proved = []
+            if rc != 0:
+                failed["*"] = "generated definitions do not type-check: " + out[-600:]
+            else:
+                # prove theorem by theorem: a broken one is recorded and left out, the others are still checked
+                blocks = re.split(r"(?=^Theorem )", eq_src, flags=re.M)
+                head, thms = blocks[0], blocks[1:]
+                tail_i = thms[-1].index("End Eq.")
+                thms[-1], tail = thms[-1][:tail_i], thms[-1][tail_i:]
+                names = [re.match(r"Theorem (\w+)", t).group(1) for t in thms]
+                alive = list(range(len(thms)))
+                for _ in range(len(thms) + 1):
+                    keep = [names[i] for i in alive]
+                    tl = "End Eq.\n" + "\n".join("Print Assumptions %s." % n for n in keep) + "\n"
+                    open(os.path.join(d, "BiGenEq.v"), "w").write(head + "".join(thms[i] for i in alive) + tl)
+                    rc, out = sh(["coqc", "-Q", COQ, "SL", "-Q", d, "SLGen", os.path.join(d, "BiGenEq.v")], cwd=d, timeout=600)
+                    if rc == 0:
+                        nclosed = out.count("Closed under the global context")
+                        if nclosed != len(keep):
+                            failed["*"] = "Print Assumptions reports assumptions: " + out[-600:]
+                        proved = keep
+                        break
+                    m = re.search(r'line (\d+), characters[^\n]*\n(.*)', out, re.S)
+                    if not m:
+                        failed["*"] = "coqc failed: " + out[-600:]
+                        break
+                    line = int(m.group(1))
+                    txt = (head + "".join(thms[i] for i in alive)).splitlines()
+                    bad = None
+                    for ln in range(min(line, len(txt)) - 1, -1, -1):
+                        mm = re.match(r"Theorem (\w+)", txt[ln])
+                        if mm:
+                            bad = mm.group(1)
+                            break
+                    if bad is None:
+                        failed["*"] = "coqc failed before the first theorem: " + out[-600:]
+                        break
+                    failed[bad] = m.group(2).strip()[:500]
+                    alive = [i for i in alive if names[i] != bad]
+            cached = {"key": key, "proved": proved, "failed": failed}
+            json.dump(cached, open(stamp, "w"))
+    for t in want:
+        if t in cached["proved"]:
+            res["theorems"].append(t)
+    if "*" in cached["failed"]:
+        res["errors"].append("the model's tie to src/bi.rs is broken: " + cached["failed"]["*"])
+    for t in want:
+        if t in cached["failed"]:
+            res["errors"].append("the model no longer equals the translation of src/bi.rs: theorem %s (coq/Gen/BiGenEq.v) "
+                                 "fails: %s" % (t, cached["failed"][t]))
+        elif t not in cached["proved"] and "*" not in cached["failed"]:
+            res["errors"].append("theorem %s (coq/Gen/BiGenEq.v) could not be checked because an earlier one failed: %s" % (
+                t, "; ".join(cached["failed"])))
+    return res
+
+
 def check_proofs(pid):
+    res = _check_proofs(pid)
+    tr = check_translation(pid)
+    if tr["theorems"] or tr["errors"]:
+        res["theorems"] = res.get("theorems", []) + tr["theorems"]
+        res["obligations"] = res.get("obligations", 0) + len(tr["theorems"]) + len(tr["errors"])
+        res["errors"] = res.get("errors", []) + tr["errors"]
+        res["discharged"] = res["obligations"] if not res["errors"] else 0
+        res["checker_cmd"] = res.get("checker_cmd", "") + "; tools/rs2v.py <repo>/src/bi.rs > BiGen.v && coqc BiGen.v BiGenEq.v (Print Assumptions: closed)"
+        res["translated"] = "src/bi.rs -> SLGen.BiGen (regenerated this run); model = translation proved in coq/Gen/BiGenEq.v"
+    return res
+
+
+def _check_proofs(pid):
     """Rebuild the property files of <pid> (full .vo build of them and of everything they depend
     on), re-run coqc on each to collect Print Assumptions, audit the sources.  Returns dict."""
     t0 = time.time()
